@@ -450,3 +450,37 @@ func vfNewMuxWorldTLS(srvTLS, peerTLS encryption.TLSConfig, expectUp bool) (*vfW
 	}
 	return w, nil
 }
+
+// vfUnrelated switches on settings of a cluster connection that the check at hand does not examine; bits of `mask` select
+// them. A property about one feature must hold whatever else is configured next to it. The caller passes only bits that
+// are unrelated to its own oracle.
+const (
+	vfKnobFVI     = 1 << iota // failover-version-increment override
+	vfKnobRepEP               // replication endpoint override
+	vfKnobNSMap               // a namespace mapping (names the check never uses)
+	vfKnobSAMap               // a search-attribute mapping (keys the check never uses)
+	vfKnobLCM11               // LCM mode with equal counts (identity mapping)
+	vfKnobMuxCount            // non-default mux pool size
+)
+
+func vfUnrelated(cfg *config.ClusterConnConfig, mask int) {
+	if mask&vfKnobFVI != 0 {
+		cfg.FVITranslation = config.IntMapping{Local: 100, Remote: 1000000}
+	}
+	if mask&vfKnobRepEP != 0 {
+		cfg.ReplicationEndpoint = "proxy.example:7233"
+	}
+	if mask&vfKnobNSMap != 0 && len(cfg.NamespaceTranslation.Mappings) == 0 {
+		cfg.NamespaceTranslation = config.StringTranslator{Mappings: []config.StringMapping{{Local: "vf-unrelated-local", Remote: "vf-unrelated-remote"}}}
+	}
+	if mask&vfKnobSAMap != 0 && len(cfg.SearchAttributeTranslation.NamespaceMappings) == 0 {
+		cfg.SearchAttributeTranslation.NamespaceMappings = []config.SANamespaceMapping{{Name: "vf-unrelated", NamespaceId: "vf-unrelated-id",
+			Mappings: []config.SAMapping{{LocalName: "VfUnrelatedLocalKey", RemoteName: "VfUnrelatedRemoteKey"}}}}
+	}
+	if mask&vfKnobLCM11 != 0 && cfg.ShardCountConfig.Mode == "" {
+		cfg.ShardCountConfig = config.ShardCountConfig{Mode: config.ShardCountLCM, LocalShardCount: 4, RemoteShardCount: 4}
+	}
+	if mask&vfKnobMuxCount != 0 {
+		cfg.Local.MuxCount, cfg.Remote.MuxCount = 3, 3
+	}
+}
